@@ -74,7 +74,22 @@ pub fn bases() -> Vec<Module> {
             ],
         ),
     )]);
-    let plain = vec![b1, b2, b3, b4, b5];
+    // modules that consist of one function of one card each, chained by argument-less calls: every
+    // card of the program has the same function index and the same card index, only the namespace
+    // tells them apart
+    let one = |name: &str, card: C, subs: Vec<(String, Module)>| -> (String, Module) { (name.to_string(), Module { submodules: subs, functions: vec![("only".into(), func(&[], vec![card]))], imports: vec![] }) };
+    let b6 = Module {
+        submodules: vec![
+            one("a", call("b.only", vec![]), vec![]),
+            one("b", call("c.only", vec![]), vec![]),
+            one("c", call("d.e.only", vec![]), vec![]),
+            one("d", native("log0", vec![]), vec![one("e", call("f.only", vec![]), vec![])]),
+            one("f", native("log0", vec![]), vec![]),
+        ],
+        functions: vec![("main".into(), func(&[], vec![call("a.only", vec![])]))],
+        imports: vec![],
+    };
+    let plain = vec![b1, b2, b3, b4, b5, b6];
     // the same programs with Comment cards in front of and between the cards of every function,
     // closure and composite body: comments emit no code but count in card indices
     let mut all = plain.clone();
